@@ -183,6 +183,26 @@ func c16Check(h []byte, via string) (kind, msg string) {
 			return "", "reader position after the first profile is not its end: n/a"
 		}
 		p, err, pan = readProfile(br)
+	case "reader-reused": // one ProfileReader used for two profiles back to back; the FIRST result is inspected afterwards
+		other := append([]byte{}, h...)
+		for i := range other {
+			if i < 36 || i >= 40 {
+				other[i] ^= 0xFF
+			}
+		}
+		second := c16Profile(other)
+		pr := icc.NewProfileReader(bytes.NewReader(append(append([]byte{}, prof...), second...)))
+		func() {
+			defer func() {
+				if x := recover(); x != nil {
+					pan = x
+				}
+			}()
+			p, err = pr.ReadProfile()
+			if err == nil {
+				_, _ = pr.ReadProfile() // whatever this gives, the profile returned first must stay what it was
+			}
+		}()
 	case "data-reused": // one meta.Data object that held another profile before (and was asked for it)
 		other := append([]byte{}, h...)
 		for i := range other {
@@ -369,6 +389,21 @@ func runC16(r *core.Run) {
 				headers = append(headers, h)
 			}
 		}
+		// words that mean something in the containers a profile travels in (the JPEG APP2 identifier,
+		// chunk and box names), alone and in pairs, in the first fields of the header
+		cont := []string{"ICC_", "PROF", "ILE\x00", "\x01\x01\x00\x00", "iCCP", "ICCP", "RIFF", "WEBP", "\x89PNG", "Exif", "JFIF", "\xff\xd8\xff\xe2", "acsp"}
+		for i, a := range cont {
+			for _, b := range []string{cont[(i+1)%len(cont)], "lcms", "\x00\x00\x00\x00"} {
+				for _, off := range []int{0, 4, 8} {
+					h := append([]byte{}, std[:]...)
+					copy(h[off:off+4], a)
+					if off+8 <= 36 {
+						copy(h[off+4:off+8], b)
+					}
+					headers = append(headers, h)
+				}
+			}
+		}
 		// the PCS illuminant: D50 as ICC writes it, each word off by up to 4 in every combination of signs
 		d50 := [3]uint32{0x0000F6D6, 0x00010000, 0x0000D32D}
 		for _, dx := range []int{-4, -3, -1, 0, 1, 2, 3} {
@@ -406,7 +441,7 @@ func runC16(r *core.Run) {
 		}
 		r.AddEvals(1)
 		if i%17 == 0 {
-			for _, via := range []string{"png", "bufio@4000", "short-reads", "bytes.Reader@offset", "strings.Reader@offset", "bytes.Buffer", "section", "second-in-reader", "after-rejected", "data-reused"} {
+			for _, via := range []string{"png", "bufio@4000", "short-reads", "bytes.Reader@offset", "strings.Reader@offset", "bytes.Buffer", "section", "second-in-reader", "after-rejected", "data-reused", "reader-reused"} {
 				if kind, msg := c16Check(h, via); kind != "" {
 					r.Violate("header", kind+"/"+via, msg, c16Case{Header: hex.EncodeToString(h), Via: via})
 				}
